@@ -41,6 +41,8 @@ var confPluginNames = []string{"dns", "server_id", "file", "range", "router", "n
 
 func confWord(rng *rand.Rand) string {
 	pool := []string{"10.0.0.1", "2001:db8::1", "leases.txt", "/var/lib/coredhcp/leases.db", "LL", "00:11:22:33:44:55", "autorefresh", "60s", "example.org", "255.255.255.0", "10.0.0.0/8,10.0.0.254", "tftp://10.0.0.5/boot.efi", "a-b_c", "x", "64",
+		// words YAML would type as numbers or booleans when they stand alone without quotes
+		"1500", "3600", "0.5", "0.00005", "0.00001", "0.0001", "123456789012", "1000000000000000000000", "true", "false", "-1", "0",
 		// text that means something to shells, template engines or boot firmware - not to this loader
 		"http://10.0.0.1/boot.php?mac=${mac}&uuid=${uuid}", "${STATE_DIRECTORY}/leases.txt", "${HOME}", "$HOME/x", "%h/%n", "a$b", "{{.Name}}", "~/leases.txt",
 		// text with parts that look like secrets, credentials or comments
@@ -75,19 +77,59 @@ func genPlugins(rng *rand.Rand, indent string) (string, []PlugWant) {
 		return "FLOW[" + strings.Join(items, ", ") + "]\n", want
 	}
 	for _, p := range want {
-		switch {
-		case len(p.Args) == 0 && rng.Intn(2) == 0:
-			fmt.Fprintf(&sb, "%s- %s:\n", indent, p.Name)
-		case len(p.Args) == 0:
-			fmt.Fprintf(&sb, "%s- %s: ''\n", indent, p.Name)
-		case len(p.Args) == 1 && p.Args[0] == "64" && rng.Intn(2) == 0:
-			fmt.Fprintf(&sb, "%s- %s: 64\n", indent, p.Name)
-		default:
-			sep := []string{" ", "  ", "   "}[rng.Intn(3)]
-			fmt.Fprintf(&sb, "%s- %s: '%s'\n", indent, p.Name, strings.Join(p.Args, sep))
-		}
+		sb.WriteString(RenderPluginItem(rng, indent, p.Name, p.Args))
 	}
 	return sb.String(), want
+}
+
+// plainScalars are argument words that may be written without quotes: YAML types them (integer, float,
+// boolean) and the loader turns them back into the text written here - every one of them is the canonical
+// decimal spelling of its value, so "the argument as written" has one meaning.
+var plainScalars = map[string]bool{"64": true, "1500": true, "3600": true, "0.5": true, "0.00005": true, "0.00001": true,
+	"0.0001": true, "123456789012": true, "1000000000000000000000": true, "true": true, "false": true, "-1": true, "0": true}
+
+// RenderPluginItem writes one item of a plugins list in one of the spellings YAML offers for the same value:
+// single-quoted, double-quoted with escaped blanks, tabs and line breaks between the words, literal and
+// folded block scalars with one or several words per line, or - for one word that is a number or a boolean -
+// no quotes at all. The arguments are the whitespace-separated words in every spelling.
+func RenderPluginItem(rng *rand.Rand, indent, name string, args []string) string {
+	if len(args) == 0 {
+		if rng.Intn(2) == 0 {
+			return fmt.Sprintf("%s- %s:\n", indent, name)
+		}
+		return fmt.Sprintf("%s- %s: ''\n", indent, name)
+	}
+	if len(args) == 1 && plainScalars[args[0]] && rng.Intn(2) == 0 {
+		return fmt.Sprintf("%s- %s: %s\n", indent, name, args[0])
+	}
+	switch rng.Intn(8) {
+	case 0: // double-quoted, escapes between the words
+		var sb strings.Builder
+		esc := strings.NewReplacer("\\", "\\\\", "\"", "\\\"")
+		for i, a := range args {
+			if i > 0 {
+				sb.WriteString([]string{" ", "\\t", "\\n", "\\r\\n", " \\n ", "\\n\\n"}[rng.Intn(6)])
+			}
+			sb.WriteString(esc.Replace(a))
+		}
+		tail := []string{"", "", "\\n", " ", "\\t"}[rng.Intn(5)]
+		return fmt.Sprintf("%s- %s: \"%s%s\"\n", indent, name, sb.String(), tail)
+	case 1: // block scalar, literal or folded, keep/strip/clip
+		hdr := []string{"|", ">", "|-", ">-", "|+", ">+"}[rng.Intn(6)]
+		var sb strings.Builder
+		fmt.Fprintf(&sb, "%s- %s: %s\n", indent, name, hdr)
+		for i := 0; i < len(args); {
+			n := 1 + rng.Intn(2)
+			if i+n > len(args) {
+				n = len(args) - i
+			}
+			fmt.Fprintf(&sb, "%s    %s\n", indent, strings.Join(args[i:i+n], " "))
+			i += n
+		}
+		return sb.String()
+	}
+	sep := []string{" ", "  ", "   "}[rng.Intn(3)]
+	return fmt.Sprintf("%s- %s: '%s'\n", indent, name, strings.Join(args, sep))
 }
 
 type listenSpec struct {
